@@ -40,6 +40,12 @@ func (e *eng) Exec(op []string) string {
 			return "lost"
 		}
 		return "stored"
+	case "sendx": // sendx <seq> <pad>: a packet with a header extension and RTP padding
+		n, b0, tail, err := e.v.SendX(uint16(a(1)), a(2))
+		if err != nil {
+			return "lost"
+		}
+		return fmt.Sprintf("stored %d %d %s", n, b0, common.Hex(tail))
 	case "nacks":
 		ns := e.v.Nacks(time.Duration(a(1)) * time.Millisecond)
 		var sb strings.Builder
@@ -118,7 +124,13 @@ func gen(t *common.Trace, e common.Engine, r *common.Rng, thorough bool) {
 				t.Count("chan:held")
 				continue
 			}
-			do("send %d", seq)
+			if r.Intn(8) == 0 {
+				// a packet with a header extension (the read loop strips it and re-marshals the packet) and, often, padding
+				t.Count("chan:ext")
+				do("sendx %d %d", seq, common.Pick(r, 0, 0, 1, 4, 7, 200))
+			} else {
+				do("send %d", seq)
+			}
 			if len(held) > 0 && r.Intn(4) == 0 {
 				do("send %d", held[0])
 				held = held[1:]
